@@ -38,7 +38,12 @@ def ev(node, atom, inl, depth=0):
             raise Unknown("matches! with guard")
         return last_seg(str(v)) in heads
     if k == "bin" and node["op"] in ("==", "!="):
-        a, b = atom(show(node["lhs"]).lstrip("&*")), atom(show(node["rhs"]).lstrip("&*"))
+        def val(x):
+            v_ = atom(show(x).lstrip("&*"))            # the name as written first (a rule may give a value to a local by name)
+            if v_ is None and inl is not None:
+                v_ = atom(inl.show(x).lstrip("&*"))      # then what it was computed from
+            return v_
+        a, b = val(node["lhs"]), val(node["rhs"])
         if a is None:
             a = show(node["lhs"]) if node["lhs"].get("k") == "path" and "::" in node["lhs"]["p"] else None
         if b is None:
@@ -47,7 +52,83 @@ def ev(node, atom, inl, depth=0):
             raise Unknown("comparison " + show(node))
         eq = last_seg(str(a)) == last_seg(str(b))
         return eq if node["op"] == "==" else not eq
-    v = atom(show(node, maxdepth=8))
+    if k == "match":
+        return _ev_match(node, atom, inl)
+    if k == "if" and node.get("e") is not None:
+        br = node["t"] if ev(node["c"], atom, inl, depth + 1) else node["e"]
+        return ev_body(br, atom, inl)
+    if k == "mcall" and node["m"] in ("clone", "as_str", "as_ref") and not node["a"]:
+        return ev(node["r"], atom, inl, depth + 1)
+    txt = show(node, maxdepth=8)
+    v = atom(txt)
+    if v is None and inl is not None:
+        txt = inl.show(node)
+        v = atom(txt)
     if v is None:
-        raise Unknown("atom " + show(node, maxdepth=6))
+        raise Unknown("atom " + txt[:80])
     return v
+
+
+def ev_body(block, atom, inl):
+    """Value of a function body / block that decides a boolean: `let`s are inlined on demand, `if c { return e }` statements
+    are early exits, the last expression is the result."""
+    if block.get("k") != "block":
+        return ev(block, atom, inl)
+    for st in block["s"]:
+        k = st.get("k")
+        if k in ("local", "item_fn", "macro"):
+            continue
+        if k == "if" and any(x.get("k") == "return" for x in __import__("synq").walk(st)):
+            c = ev(st["c"], atom, inl)
+            br = st["t"] if c else st.get("e")
+            if br is None:
+                continue
+            r = _returned(br, atom, inl)
+            if r is not None:
+                return r
+            continue
+        if k == "return":
+            return ev(st["e"], atom, inl)
+        if st is block["s"][-1]:
+            return ev_expr(st, atom, inl)
+    raise Unknown("no result expression")
+
+
+def _returned(block, atom, inl):
+    sts = block["s"] if block.get("k") == "block" else [block]
+    for st in sts:
+        if st.get("k") == "return":
+            return ev(st["e"], atom, inl)
+        if st.get("k") == "if":
+            c = ev(st["c"], atom, inl)
+            br = st["t"] if c else st.get("e")
+            if br is not None:
+                r = _returned(br, atom, inl)
+                if r is not None:
+                    return r
+    return None
+
+
+def ev_expr(node, atom, inl):
+    """like ev, plus `if c {a} else {b}` and `match x { P => a, .. }` expressions with boolean branches"""
+    k = node.get("k")
+    if k == "if" and node.get("e") is not None:
+        br = node["t"] if ev(node["c"], atom, inl) else node["e"]
+        return ev_body(br, atom, inl)
+    if k == "match":
+        return _ev_match(node, atom, inl)
+    return ev(node, atom, inl)
+
+
+def _ev_match(node, atom, inl):
+    v = atom(show(node["e"]).lstrip("&*"))
+    if v is None:
+        raise Unknown("match on " + show(node["e"]))
+    for arm in node["arms"]:
+        heads = [str(pat_head(a)) for a in pat_alts(arm["pat"])]
+        if any(h == "_" or last_seg(h) == last_seg(str(v)) for h in heads):
+            if arm.get("guard") is not None and not ev(arm["guard"], atom, inl):
+                continue
+            b = arm["body"]
+            return ev_body(b, atom, inl) if b.get("k") == "block" else ev_expr(b, atom, inl)
+    raise Unknown("no arm matches " + str(v))
